@@ -176,7 +176,8 @@ QPOL.update({
     "structs:RF24NetworkFrame.__init__": "inline", "structs:RF24NetworkHeader.__init__": "inline",
     "structs:RF24NetworkFrame.pack": "ref:spec.c11:ref_frame_pack",
     "structs:RF24NetworkFrame.unpack": "ref:spec.c11:ref_frame_unpack",
-    "structs:FrameQueue.__len__": "inline", "structs:FrameQueue.dequeue": "inline",
+    "structs:FrameQueue.__len__": "inline", "structs:FrameQueue.dequeue": "inline", "structs:FrameQueue.enqueue": "inline",
+    "structs:FrameQueueFrag.enqueue": "inline", "structs:FrameQueue.peek": "inline",
     "structs:FrameQueue.__init__": "inline", "structs:FrameQueueFrag.__init__": "inline",
 })
 
